@@ -4,20 +4,20 @@
 From PV Require Import C13.Spec C13.Lib C13.ProofsMaps C13.ProofsSums C13.ProofsRollup C13.ProofsGroup C13.ProofsHist Gen.C13_Tables.
 
 (* _parse_smaps on every kernel-formatted listing *)
-Theorem parse_smaps_spec ex ms : forallb (wf_kernel ex) ms = true ->
+Theorem parse_smaps_spec ms : forallb wf_kernel0 ms = true ->
   parse_smaps Alive (FContent (k_smaps ms)) = Val (spec_sums ms).
-Proof. intros Hms. unfold parse_smaps, with_file. now rewrite fstrip_strip, (smaps_sums_spec ex ms Hms). Qed.
+Proof. intros Hms. unfold parse_smaps, with_file. now rewrite fstrip_strip, (smaps_sums_spec ms Hms). Qed.
 
 (* memory_full_info() when /proc/<pid>/smaps is the source: no roll-up support, or the
    roll-up file answers ENOENT / ESRCH *)
-Theorem full_info_smaps ex pagesize r ms has_rollup rollup :
-  wf_statm r = true -> forallb (wf_kernel ex) ms = true ->
+Theorem full_info_smaps pagesize r ms has_rollup rollup :
+  wf_statm r = true -> forallb wf_kernel0 ms = true ->
   has_rollup = false \/ rollup = FENOENT \/ rollup = FESRCH ->
   memory_full_info Alive pagesize has_rollup rollup (FContent (k_smaps ms)) (FContent (k_statm r))
   = Val (spec_full pagesize r ms).
 Proof.
   intros Hr Hms Hsrc. unfold memory_full_info, spec_full.
-  pose proof (parse_smaps_spec ex ms Hms) as E.
+  pose proof (parse_smaps_spec ms Hms) as E.
   assert (S : (if has_rollup then match rollup with
                                   | FENOENT | FESRCH => parse_smaps Alive (FContent (k_smaps ms))
                                   | _ => with_file Alive rollup parse_rollup end
@@ -41,13 +41,13 @@ Proof.
 Qed.
 
 (* the same record whichever file is the source *)
-Theorem rollup_agrees ex pagesize r ms rl :
-  wf_statm r = true -> forallb (wf_kernel ex) ms = true -> wf_rollup rl = true -> consistent rl ms = true ->
+Theorem rollup_agrees pagesize r ms rl :
+  wf_statm r = true -> forallb wf_kernel0 ms = true -> wf_rollup rl = true -> consistent rl ms = true ->
   memory_full_info Alive pagesize true (FContent (k_rollup rl)) (FContent (k_smaps ms)) (FContent (k_statm r))
   = memory_full_info Alive pagesize false (FContent (k_rollup rl)) (FContent (k_smaps ms)) (FContent (k_statm r)).
 Proof.
   intros Hr Hms Hrl Hc. rewrite (full_info_rollup pagesize r ms rl _ Hr Hrl Hc).
-  symmetry. apply (full_info_smaps ex); auto.
+  symmetry. apply full_info_smaps; auto.
 Qed.
 
 (* a real kernel's roll-up (Pss kept in sub-kB precision): the record carries the roll-up's
@@ -80,13 +80,13 @@ Proof.
 Qed.
 
 (* memory_percent over the kernel's files *)
-Theorem percent_kernel ex pagesize r ms name total :
-  wf_statm r = true -> forallb (wf_kernel ex) ms = true -> 0 < total ->
+Theorem percent_kernel pagesize r ms name total :
+  wf_statm r = true -> forallb wf_kernel0 ms = true -> 0 < total ->
   memory_percent name (with_file Alive (FContent (k_statm r)) (memory_info pagesize))
                  (memory_full_info Alive pagesize false FENOENT (FContent (k_smaps ms)) (FContent (k_statm r))) total
   = spec_percent name (spec_full pagesize r ms) total.
 Proof.
-  intros Hr Hms Ht. rewrite (full_info_smaps ex pagesize r ms false FENOENT Hr Hms (or_introl eq_refl)).
+  intros Hr Hms Ht. rewrite (full_info_smaps pagesize r ms false FENOENT Hr Hms (or_introl eq_refl)).
   cbn [with_file]. rewrite (statm_roundtrip pagesize r Hr).
   assert (E : spec_meminfo pagesize r = firstn 7 (spec_full pagesize r ms)).
   { unfold spec_full. destruct (spec_sums ms) as [[a b] c]. reflexivity. }
@@ -138,20 +138,20 @@ Qed.
 
 (* ... and the listing: whatever the other lines say, the sums are those of the figures *)
 Theorem k6_smaps_ignores_decoys ex ms :
-  (forall m, In m ms -> wf_header ex m = true /\
+  (forall m, In m ms -> wf_header m = true /\ marker_ok ex m = true /\ probe_answers ex m = true /\
      exists fv d fl, m_lines m = k6_lines fv d fl /\ (forall f, is_dec (fv f) = true) /\
                      (forall i, is_dec (d i) = true) /\ fl <> [] /\ forallb flag_ok fl = true) ->
   parse_smaps Alive (FContent (k_smaps ms)) = Val (spec_sums ms)
   /\ memory_maps Alive ex (FContent (k_smaps ms)) = Val (map spec_row ms).
 Proof.
   intros H. assert (W : forallb (wf_kernel ex) ms = true).
-  { apply forallb_forall. intros m Hm. destruct (H m Hm) as (Hh & fv & d & fl & El & Hf & Hd & Hne & Hfl).
-    unfold wf_kernel. rewrite Hh, El. now apply k6_body_wf. }
+  { apply forallb_forall. intros m Hm. destruct (H m Hm) as (Hh & Hmk & Hpa & fv & d & fl & El & Hf & Hd & Hne & Hfl).
+    unfold wf_kernel, wf_kernel0. rewrite Hh, Hmk, Hpa, El. now rewrite k6_body_wf. }
   assert (U : uniform_figs ms = true).
   { unfold uniform_figs. apply forallb_forall. intros f Hf. apply orb_true_iff. left.
-    apply forallb_forall. intros m Hm. destruct (H m Hm) as (_ & fv & d & fl & El & _).
+    apply forallb_forall. intros m Hm. destruct (H m Hm) as (_ & _ & _ & fv & d & fl & El & _).
     unfold has_fig. rewrite El, (k6_has_fig fv d fl f Hf). reflexivity. }
-  split; [now apply (parse_smaps_spec ex)|now apply maps_ungrouped].
+  split; [apply parse_smaps_spec; now apply (forallb_kernel0 ex)|now apply maps_ungrouped].
 Qed.
 
 (* ------------------------------------------------ the defect repaired by /repo commit c15178c *)
@@ -163,14 +163,14 @@ Definition wit_lines : list kline :=
 Definition wit_blank : mapping :=
   {| m_addr := bs "00400000-00401000"; m_perms := bs "r-xp"; m_offset := bs "00000000"; m_dev := bs "fe:00";
      m_inode := bs "320173"; m_pad := 3; m_path := bs "/tmp/a "; m_deleted := false; m_lines := wit_lines |}.
-Definition no_files : bytes -> bool := fun _ => false.
+Definition no_files : bytes -> probe_res := fun _ => PAbsent.
 
 (* the path decoding as it was before the repair (path.strip()) lost the blank at the end of
    a mapped file's name; the present decoding returns the name the kernel shows *)
 Theorem legacy_strip_refuted :
   wf_kernel no_files wit_blank = true
-  /\ clean_path_legacy no_files (shown_path wit_blank) = bs "/tmp/a"
-  /\ clean_path no_files (shown_path wit_blank) = m_path wit_blank
+  /\ clean_path_legacy no_files (shown_path wit_blank) = Val (bs "/tmp/a")
+  /\ clean_path no_files (shown_path wit_blank) = Val (m_path wit_blank)
   /\ m_path wit_blank = bs "/tmp/a ".
 Proof. vm_compute. repeat split. Qed.
 
@@ -236,7 +236,7 @@ Definition blank_m : mapping :=
   {| m_addr := bs "00400000-00401000"; m_perms := bs "r-xp"; m_offset := bs "00000000"; m_dev := bs "fe:00";
      m_inode := bs "320173"; m_pad := 3; m_path := 32 :: bs "/tmp/a"; m_deleted := false; m_lines := wit_lines |}.
 Theorem maps_leading_blank_observation :
-  wf_body (m_lines blank_m) = true /\ path_ok no_files blank_m = false
+  wf_body (m_lines blank_m) = true /\ path_head_ok blank_m = false
   /\ exists rows, memory_maps Alive no_files (FContent (k_smaps [blank_m])) = Val rows
                  /\ map w_path rows = [bs "/tmp/a"] /\ m_path blank_m = 32 :: bs "/tmp/a".
 Proof. split; [vm_compute; reflexivity|]. split; [vm_compute; reflexivity|]. eexists. split; [vm_compute; reflexivity|]. split; reflexivity. Qed.
@@ -269,14 +269,14 @@ Proof. repeat split. Qed.
 (* ------------------------------------------------ memory_percent over histories *)
 (* over the kernel's files: every memory_percent of every history of virtual_memory() calls and
    MemTotal changes divides by the total the last virtual_memory() call reported *)
-Theorem percent_history ex pagesize r ms kernel0 ops :
-  wf_statm r = true -> forallb (wf_kernel ex) ms = true -> hist_ok ops = true -> 0 < kernel0 ->
+Theorem percent_history pagesize r ms kernel0 ops :
+  wf_statm r = true -> forallb wf_kernel0 ms = true -> hist_ok ops = true -> 0 < kernel0 ->
   run_hist (with_file Alive (FContent (k_statm r)) (memory_info pagesize))
            (memory_full_info Alive pagesize false FENOENT (FContent (k_smaps ms)) (FContent (k_statm r)))
            None kernel0 ops
   = spec_hist (spec_full pagesize r ms) None kernel0 ops.
 Proof.
-  intros Hr Hms Hok Hk. rewrite (full_info_smaps ex pagesize r ms false FENOENT Hr Hms (or_introl eq_refl)).
+  intros Hr Hms Hok Hk. rewrite (full_info_smaps pagesize r ms false FENOENT Hr Hms (or_introl eq_refl)).
   cbn [with_file]. rewrite (statm_roundtrip pagesize r Hr).
   assert (E : spec_meminfo pagesize r = firstn 7 (spec_full pagesize r ms)).
   { unfold spec_full. destruct (spec_sums ms) as [[a b] c]. reflexivity. }
@@ -292,3 +292,40 @@ Example history_example :
   /\ spec_hist [4096; 0; 0; 0; 0; 0; 0; 0; 0; 0] None 8589934592 [HVM; HSet 4294967296; HPct (bs "rss")]
   = [Val (409600, 8589934592)].
 Proof. split; reflexivity. Qed.
+
+
+(* ------------------------------------------------ the existence probe of a marked name *)
+(* number and order of the listed mappings are those of the smaps records, and every column
+   but the path is the record's, whatever the probe answers among "there" / "not there for
+   whatever errno" (ENOENT, ENOTDIR, ENAMETOOLONG, ELOOP, EIO, EOVERFLOW ...) -- also for
+   names whose marker is ambiguous *)
+Theorem maps_rows_any_probe ex ms :
+  forallb wf_kernel0 ms = true -> uniform_figs ms = true -> forallb (probe_answers ex) ms = true ->
+  exists rows, memory_maps Alive ex (FContent (k_smaps ms)) = Val rows
+    /\ length rows = length ms
+    /\ map w_addr rows = map m_addr ms /\ map w_perms rows = map m_perms ms
+    /\ map w_nums rows = map (fun m => map (fun f => kb m f * 1024) row_figs) ms
+    /\ map w_path rows = map (row_path ex) ms.
+Proof.
+  intros Hwf Hu Ha. exists (map (probed_row ex) ms). split; [now apply maps_rows|].
+  rewrite map_length, !map_map. repeat split.
+Qed.
+
+(* the probe failing for a reason other than "not there" never changes the path a readable
+   marker yields: an unlinked file whose marked name is too long / loops / is unreadable media
+   is listed under its own name, like one whose marked name is simply absent *)
+Theorem absent_errno_irrelevant ex ex' m :
+  path_head_ok m = true -> m_deleted m = true ->
+  is_exists (ex (shown_path m)) = false -> is_exists (ex' (shown_path m)) = false ->
+  row_path ex m = row_path ex' m.
+Proof. intros _ _ H H'. unfold row_path. now rewrite H, H'. Qed.
+
+(* PermissionError of the probe: the whole call fails with AccessDenied although the smaps
+   file was read -- the listing the property demands is not produced *)
+Definition deny_all : bytes -> probe_res := fun _ => PDenied.
+Theorem maps_probe_denied_refuted :
+  forallb wf_kernel0 [ex_m1; ex_m2] = true /\ uniform_figs [ex_m1; ex_m2] = true
+  /\ m_deleted ex_m1 = true /\ probe_answers deny_all ex_m1 = false
+  /\ memory_maps Alive deny_all (FContent (k_smaps [ex_m1; ex_m2])) = Exc AccessDenied
+  /\ map w_path (map spec_row [ex_m1; ex_m2]) = [bs "/tmp/a b:c"; bs "[anon]"].
+Proof. vm_compute. repeat split. Qed.
